@@ -34,6 +34,7 @@ type vf37HookTok struct{ id int }
 
 type vf37Hook struct {
 	mode         string // normal | pstart | pend | cancel
+	ret          string // what start returns: "" derived ctx + token | nilctx | niltoken | samectx
 	k            int
 	nStart, nEnd int
 }
@@ -53,6 +54,15 @@ func (h *vf37Hook) OnDispatchStart(ctx context.Context, info DispatchInfo) (cont
 		vf37CancelFn = cancel
 		return context.WithValue(cctx, vf37TokKey{}, n), &vf37HookTok{id: n}
 	}
+	switch h.ret {
+	case "nilctx": // "I did not enrich the context": both dispatchers nil-check it
+		return nil, &vf37HookTok{id: n}
+	case "niltoken": // HookToken is opaque; nil is a legal token
+		vf37Log[len(vf37Log)-1].Tok = -2
+		return context.WithValue(ctx, vf37TokKey{}, n), nil
+	case "samectx":
+		return ctx, &vf37HookTok{id: n}
+	}
 	return context.WithValue(ctx, vf37TokKey{}, n), &vf37HookTok{id: n}
 }
 
@@ -62,6 +72,8 @@ func (h *vf37Hook) OnDispatchEnd(ctx context.Context, token HookToken, info Disp
 	id := -1
 	if t, ok := token.(*vf37HookTok); ok && t != nil {
 		id = t.id
+	} else if token == nil {
+		id = -2
 	}
 	ev := vf37Ev{Unit: vf37CurUnit, What: "end", Tok: id, ErrNil: err == nil, Info: info}
 	if err != nil {
@@ -245,13 +257,20 @@ func TestVerif_C37(t *testing.T) {
 				tr = "http"
 			}
 			nU := vf37MaxUnits(hist, http)
-			hm := x.Choose(1+2*nU, "hook")
+			// hook behaviour: 0 normal | 1..3 normal with another legal return
+			// shape of OnDispatchStart (nil ctx, nil token, the ctx it was given)
+			// | then panic in the k-th start | panic in the k-th end
+			hm := x.Choose(4+2*nU, "hook")
 			hook := &vf37Hook{mode: "normal"}
 			mode := "normal"
-			if hm >= 1 && hm <= nU {
-				hook.mode, hook.k, mode = "pstart", hm-1, "start-panic"
-			} else if hm > nU {
-				hook.mode, hook.k, mode = "pend", hm-1-nU, "end-panic"
+			switch {
+			case hm >= 1 && hm <= 3:
+				hook.ret = []string{"nilctx", "niltoken", "samectx"}[hm-1]
+				mode = "normal-" + hook.ret
+			case hm >= 4 && hm < 4+nU:
+				hook.mode, hook.k, mode = "pstart", hm-4, "start-panic"
+			case hm >= 4+nU:
+				hook.mode, hook.k, mode = "pend", hm-4-nU, "end-panic"
 			}
 			base := vf37GetBaseline(hist, http)
 			run := vf37RunHistory(hist, http, &vf37Env{Hook: hook})
